@@ -81,7 +81,7 @@ func genC11(r *prng) *plan {
 		}
 		if r.chance(60) {
 			// raw FINDNODES from an asker of some address class with some distance list
-			p.Ops = append(p.Ops, opSpec{K: "ask", N: []int64{int64(r.intn(3)), int64(r.intn(9)), int64(r.u64() >> 1)}})
+			p.Ops = append(p.Ops, opSpec{K: "ask", N: []int64{int64(r.intn(3)), int64(r.intn(11)), int64(r.u64() >> 1)}})
 		} else {
 			// V asks a byzantine responder
 			p.Ops = append(p.Ops, opSpec{K: "respond", N: []int64{int64(r.intn(3)), int64(r.u64() >> 1), int64(3 + r.intn(12))}})
@@ -121,11 +121,20 @@ func c11Distances(mode int64, rs *prng) []uint16 {
 		return out
 	case 7:
 		return []uint16{0, 256, 0, 255}
+	case 8:
+		// repeats that are not next to each other, with invalid values in between
+		return [][]uint16{{255, 254, 255}, {254, 300, 254}, {256, 255, 256, 255, 256}, {255, 0, 255, 0}, {253, 254, 255, 256, 253, 254, 255, 256}}[rs.intn(5)]
 	}
 	n := 1 + rs.intn(6)
 	var out []uint16
 	for i := 0; i < n; i++ {
 		out = append(out, uint16(240+rs.intn(20)))
+	}
+	if rs.chance(40) {
+		// say some of it again, in another order
+		for _, i := range permN(rs, len(out))[:1+rs.intn(len(out))] {
+			out = append(out, out[i])
+		}
 	}
 	return out
 }
@@ -263,12 +272,17 @@ func runC11(seed uint64) {
 				}
 			}
 			askerIP := net.ParseIP(A.cfg.ip)
+			sentOnce := map[enode.ID]bool{}
 			for i, l := range lists {
 				n, err := decodeENR(l)
 				if err != nil {
 					w.violate("C11", "invalid-record-sent", "record #%d in the reply is not a valid signed ENR: %v", i, err)
 					continue
 				}
+				if sentOnce[n.ID()] {
+					w.violate("C11", "record-repeated", "record #%d (%s) appears a second time in the reply to distances %v: a repeated distance was served again", i, n.ID().TerminalString(), shortU16(dists))
+				}
+				sentOnce[n.ID()] = true
 				if !relayOK(askerIP, n.IP()) {
 					w.violate("C11", "unrelayable-record-sent", "record #%d with address %s sent to an asker at %s", i, n.IP(), askerIP)
 				}
